@@ -32,7 +32,9 @@ DocSig(d) ==
           ELSE LET k == d.kids[i]
                IN k.tag \o (IF k.childless THEN "/childless" ELSE "")
                   \o (IF k.tag = "roElementAction"
-                      THEN "/op=" \o k.op \o "/t=" \o k.tgt \o "/s=" \o k.src ELSE "")
+                      THEN "/op=" \o k.op \o "/t=" \o k.tgt \o "/s=" \o k.src
+                           \o (IF k.tgt2 # "absent" \/ k.src2 # "absent" THEN "/t2=" \o k.tgt2 \o "/s2=" \o k.src2 ELSE "")
+                      ELSE "")
 
 TNext ==
   /\ l <= Len(Events)
